@@ -58,6 +58,7 @@ type plannedBlock struct {
 	// executed governance proposal changes parameters); nil = none
 	minterUpdate *mintertypes.Params
 	discarded    *mintertypes.Params // a valid update executed on a branch of the block's state that is then dropped
+	distrUpdate  *distrtypes.Params  // governance adds a destination to the distributor's configuration
 }
 
 type appRun struct {
@@ -292,6 +293,13 @@ func (r *appRun) runBlock(pb plannedBlock, tracked []sdk.AccAddress, rep *Report
 			rep.Count("discarded_minter_update")
 			rep.Eval("C13.discarded_update_changes_nothing", err != nil || !sameParams(app.CfeminterKeeper.GetParams(ctx), *pb.discarded), cid, bIdx,
 				"a minter parameter update executed on a dropped branch of the state is visible in the block's state")
+		}
+	}
+	if pb.distrUpdate != nil {
+		err := app.CfedistributorKeeper.SetParams(ctx, *pb.distrUpdate)
+		sb.WriteString(fmt.Sprintf("distr-update %v;", err == nil))
+		if record {
+			rep.Count("distributor_update")
 		}
 	}
 	if pb.minterUpdate != nil {
@@ -582,6 +590,38 @@ func runAppCase(seed uint64, idx int, rep *Report, profile string, traceDir stri
 		}
 		if p3 := mc3.params(); p3.Validate() == nil {
 			plan[at].discarded = &p3
+		}
+	}
+
+	// governance adds a small named share to a module account the configuration did not pay so far (its account may not exist
+	// yet, and with a tiny share it is not created for many blocks)
+	if rng.Chance(40) && nBlocks > 3 && len(dparams.SubDistributors) > 0 {
+		used := map[string]bool{}
+		for _, sd := range dparams.SubDistributors {
+			used[sd.Destinations.PrimaryShare.Id] = true
+			for _, sh := range sd.Destinations.Shares {
+				used[sh.Destination.Id] = true
+			}
+			for _, src := range sd.Sources {
+				used[src.Id] = true
+			}
+		}
+		for _, m := range []string{distrtypes.GovernanceBoosterCollector, distrtypes.GreenEnergyBoosterCollector, distrtypes.ValidatorsRewardsCollector} {
+			if used[m] {
+				continue
+			}
+			np := distrtypes.Params{}
+			for _, sd := range dparams.SubDistributors {
+				cp := sd
+				cp.Destinations.Shares = append([]*distrtypes.DestinationShare{}, sd.Destinations.Shares...)
+				np.SubDistributors = append(np.SubDistributors, cp)
+			}
+			np.SubDistributors[0].Destinations.Shares = append(np.SubDistributors[0].Destinations.Shares, &distrtypes.DestinationShare{
+				Name: "late_share", Share: sdk.NewDecWithPrec(1, 6), Destination: distrtypes.Account{Type: distrtypes.ModuleAccount, Id: m}})
+			if np.Validate() == nil {
+				plan[1+rng.Intn(nBlocks-2)].distrUpdate = &np
+			}
+			break
 		}
 	}
 
